@@ -12,11 +12,15 @@ import (
 	"fmt"
 	"io/fs"
 	"math/rand"
+	"os"
 	"strconv"
 	"strings"
 
+	"github.com/google/go-containerregistry/pkg/name"
+	v1 "github.com/google/go-containerregistry/pkg/v1"
 	"github.com/google/go-containerregistry/pkg/v1/empty"
 	"github.com/google/go-containerregistry/pkg/v1/mutate"
+	"github.com/google/go-containerregistry/pkg/v1/tarball"
 	"github.com/google/osv-scalibr/artifact/image/layerscanning/image"
 	"github.com/google/osv-scalibr/artifact/image/require"
 
@@ -32,8 +36,18 @@ type ent struct {
 
 type tcase struct {
 	dmax int
+	hist string // config history of the image: H N S G E X, optionally followed by t (load through FromTarball)
 	ents []ent
 }
+
+// History modes. The answer of every observation must not depend on them.
+//
+//	H  one history entry per layer (what mutate.AppendLayers writes)          -> chain layers follow the history
+//	E  valid history with empty-layer entries before, between and after         -> 5 chain layers, 3 of them empty
+//	N  no history at all                                                        -> history ignored (fallback)
+//	S  last entry missing        G  one extra non-empty entry                   -> fallback
+//	X  empty-layer entries and a missing layer entry                            -> fallback
+const histModes = "HENSGX"
 
 func hexs(s string) string { return hex.EncodeToString([]byte(s)) }
 
@@ -49,21 +63,31 @@ func (c tcase) line() string {
 		}
 		ts[i] = fmt.Sprintf("%s:%c:%s", hexs(e.name), e.kind, l)
 	}
-	return fmt.Sprintf("sym %d %s", c.dmax, hx.Join(ts, ","))
+	h := c.hist
+	if h == "" {
+		h = "H"
+	}
+	return fmt.Sprintf("sym %d %s %s", c.dmax, h, hx.Join(ts, ","))
 }
 
 func parseCase(l string) tcase {
 	t := strings.Split(l, " ")
-	if len(t) != 3 || t[0] != "sym" {
+	if (len(t) != 3 && len(t) != 4) || t[0] != "sym" {
 		panic("bad case line: " + l)
 	}
 	d, err := strconv.Atoi(t[1])
 	if err != nil {
 		panic(err)
 	}
-	c := tcase{dmax: d}
-	if t[2] != "-" {
-		for _, e := range strings.Split(t[2], ",") {
+	c := tcase{dmax: d, hist: "H"}
+	if len(t) == 4 {
+		c.hist = t[2]
+		if len(c.hist) < 1 || len(c.hist) > 2 || !strings.Contains(histModes, c.hist[:1]) || (len(c.hist) == 2 && c.hist[1] != 't') {
+			panic("bad history token: " + l)
+		}
+	}
+	if es := t[len(t)-1]; es != "-" {
+		for _, e := range strings.Split(es, ",") {
 			p := strings.Split(e, ":")
 			c.ents = append(c.ents, ent{name: hx.UnHex(p[0]), kind: p[1][0], link: hx.UnHex(p[2])})
 		}
@@ -118,24 +142,56 @@ func run(c tcase) string {
 			}
 		}
 		l1 = append(l1, tarEnt{"keep", tar.TypeReg, "k", ""})
-		img, err := mutate.AppendLayers(empty.Image, mkLayer(l0), mkLayer(l1))
-		if err != nil {
-			panic(err)
+		img, wantChain := buildImage(c.hist[0], mkLayer(l0), mkLayer(l1))
+		tarPath := ""
+		if len(c.hist) == 2 { // load through image.FromTarball: the image goes through a docker-save tarball first
+			f, err := os.CreateTemp("", "c17-*.tar")
+			if err != nil {
+				panic(err)
+			}
+			tarPath = f.Name()
+			f.Close()
+			defer os.Remove(tarPath)
+			tag, err := name.NewTag("verif/c17:latest")
+			if err != nil {
+				panic(err)
+			}
+			if err := tarball.WriteToFile(tarPath, tag, img); err != nil {
+				panic(err)
+			}
 		}
 		var out []string
 		for d := 0; d <= c.dmax; d++ {
-			im, err := image.FromV1Image(img, &image.Config{MaxFileBytes: 1 << 20, MaxSymlinkDepth: d, Requirer: &require.FileRequirerAll{}})
+			cfg := &image.Config{MaxFileBytes: 1 << 20, MaxSymlinkDepth: d, Requirer: &require.FileRequirerAll{}}
+			var im *image.Image
+			var err error
+			if tarPath != "" {
+				im, err = image.FromTarball(tarPath, cfg)
+			} else {
+				im, err = image.FromV1Image(img, cfg)
+			}
 			if err != nil {
 				return "loaderr"
 			}
 			cls, err := im.ChainLayers()
-			if err != nil || len(cls) != 2 {
+			if err != nil || len(cls) != wantChain {
 				im.CleanUp()
-				return "loaderr"
+				return fmt.Sprintf("chainlen%d", len(cls))
+			}
+			// view 0 = the last chain layer before the one of layer 1 (layer 0's own, or the empty layer that
+			// follows it), view 1 = the last chain layer (layer 1's own, or a trailing empty layer)
+			second, seen := len(cls)-1, 0
+			for i, cl := range cls {
+				if !cl.Layer().IsEmpty() {
+					seen++
+					if seen == 2 {
+						second = i
+					}
+				}
 			}
 			var views []string
-			for v := 0; v < 2; v++ {
-				fsys := cls[v].FS()
+			for _, vi := range []int{second - 1, len(cls) - 1} {
+				fsys := cls[vi].FS()
 				toks := make([]string, len(c.ents))
 				for i, e := range c.ents {
 					var s, o, r string
@@ -172,6 +228,57 @@ func run(c tcase) string {
 		}
 		return strings.Join(out, " ")
 	})
+}
+
+// buildImage puts the two layers under a config history of the given mode; it returns the number of chain
+// layers the loader must produce.
+func buildImage(mode byte, l0, l1 v1.Layer) (v1.Image, int) {
+	add := func(img v1.Image, a mutate.Addendum) v1.Image {
+		out, err := mutate.Append(img, a)
+		if err != nil {
+			panic(err)
+		}
+		return out
+	}
+	emptyEntry := func(i int) mutate.Addendum {
+		return mutate.Addendum{History: v1.History{CreatedBy: fmt.Sprintf("empty%d", i), EmptyLayer: true}}
+	}
+	img := v1.Image(empty.Image)
+	if mode == 'E' {
+		img = add(img, emptyEntry(0))
+		img = add(img, mutate.Addendum{Layer: l0, History: v1.History{CreatedBy: "l0"}})
+		img = add(img, emptyEntry(1))
+		img = add(img, mutate.Addendum{Layer: l1, History: v1.History{CreatedBy: "l1"}})
+		img = add(img, emptyEntry(2))
+		return img, 5
+	}
+	img = add(img, mutate.Addendum{Layer: l0, History: v1.History{CreatedBy: "l0"}})
+	img = add(img, mutate.Addendum{Layer: l1, History: v1.History{CreatedBy: "l1"}})
+	if mode == 'H' {
+		return img, 2
+	}
+	cf, err := img.ConfigFile()
+	if err != nil {
+		panic(err)
+	}
+	cf = cf.DeepCopy()
+	switch mode {
+	case 'N':
+		cf.History = nil
+	case 'S':
+		cf.History = cf.History[:1]
+	case 'G':
+		cf.History = append(cf.History, v1.History{CreatedBy: "ghost"})
+	case 'X':
+		cf.History = []v1.History{{CreatedBy: "e0", EmptyLayer: true}, cf.History[0], {CreatedBy: "e1", EmptyLayer: true}}
+	default:
+		panic("history mode")
+	}
+	img, err = mutate.ConfigFile(img, cf)
+	if err != nil {
+		panic(err)
+	}
+	return img, 2
 }
 
 // ---------------------------------------------------------------- exhaustive enumeration
@@ -213,7 +320,7 @@ func exhaustive(k, part, of, dmax int, emit func(tcase)) {
 		if code%of != part {
 			continue
 		}
-		c := tcase{dmax: dmax}
+		c := tcase{dmax: dmax, hist: string(histModes[code%len(histModes)])}
 		x := code
 		for i := 0; i < k; i++ {
 			o := x % nopt
@@ -229,7 +336,16 @@ func exhaustive(k, part, of, dmax int, emit func(tcase)) {
 			}
 			c.ents = append(c.ents, e)
 		}
-		emit(c)
+		if k <= 4 {
+			// small graphs: under every history mode
+			for _, m := range histModes {
+				c2 := c
+				c2.hist = string(m)
+				emit(c2)
+			}
+			continue
+		}
+		emit(c) // 5 names: the history mode rotates with the enumeration index
 	}
 }
 
@@ -278,7 +394,10 @@ func randLink(r *rand.Rand, from string, names []string) string {
 }
 
 func randCase(r *rand.Rand, dmax int) tcase {
-	c := tcase{dmax: dmax}
+	c := tcase{dmax: dmax, hist: string(histModes[r.Intn(len(histModes))])}
+	if r.Intn(12) == 0 {
+		c.hist += "t"
+	}
 	if r.Intn(10) < 4 {
 		// a long chain: entry i links to entry i+1; the last one is terminal, missing, deleted or closes a cycle
 		n := 2 + r.Intn(len(pool)-1)
